@@ -38,6 +38,7 @@ to `next` with which location, what is recorded as deepest error or pushed to th
 generator stop (`untranslatable`) or one of these proofs fail.
 -/
 import JPV.Lemmas.NodeTie
+import JPV.Registry
 namespace JPV
 namespace NodesGen
 open Impl NavNode NodeTie Gen.NodesGo
@@ -110,6 +111,30 @@ example : keysNodup (.obj [("a", .num 1), ("b", .arr [.null])]) ∧ keysNodup (.
   show List.Nodup ["a", "b"]
   decide
 
+/-- the values in the buffer of an outcome -/
+def outVals (r : M (St × Option RtErr)) : List Val :=
+  match r with
+  | .ok (st, _) => st.out.map Res.val
+  | .error _ => []
+
+/-- the refutation announced at `wild_tie_full` -/
+theorem wild_tie_full_false : ¬ wild_tie_full := by
+  intro h
+  have h1 := h Registry.env ⟨"", "", false, false⟩ [] default .null (.obj [("a", .num 1), ("a", .num 2)]) none {}
+  have h2 := congrArg outVals h1
+  have hs : sortKV [("a", Val.num 1), ("a", Val.num 2)] = [("a", Val.num 1), ("a", Val.num 2)] := by
+    simp [sortKV, insertKV]
+  have hl : outVals (retrieve Registry.env [N.wild ⟨"", "", false, false⟩] default .null (.obj [("a", .num 1), ("a", .num 2)]) none {})
+      = [.num 1, .num 2] := by
+    simp [retrieve, hs, loopAcc, stepAcc, endGroup, finishGroup, St.push, outVals, bind, Except.bind, Res.val]
+  have hr : outVals (syntaxChildWildcardIdentifier_retrieve (wildRecv Registry.env ⟨"", "", false, false⟩ []) .null
+      ⟨.obj [("a", .num 1), ("a", .num 2)], none⟩ {}) = [.num 1, .num 1] := by
+    simp [syntaxChildWildcardIdentifier_retrieve, typeSwitch, syntaxChildWildcardIdentifier_retrieveMap, getSortedKeys, hs,
+      forRange, syntaxBasicNode_retrieveMapNext, mapIndex, Val.lookup, wildRecv, basicRecv, nextOf, St.push, outVals,
+      bind, Except.bind, pure, Except.pure, goLen, Res.val]
+  rw [hl, hr] at h2
+  simp at h2
+
 /-- `['a','b',*]`: inner names are the generated single / wildcard methods sharing the tail; with
     only `*` inside and an array as current value the union twin (generated union method with one
     wildcard subscript per name) takes over -/
@@ -171,10 +196,10 @@ theorem descLoop_eq_preorder (r : RecursiveRecv) (root cur : Val) (aloc : Option
 theorem descLoop_visits (r : RecursiveRecv) (hn : r.basic.next = some logNext) (root cur : Val) (aloc : Option Loc)
     (st : St) (hc : cur.isContainer = true) (hw : cur.wf = true) (fuel : Nat) (hf : valSize cur ≤ fuel) :
     ∃ e, syntaxRecursiveChildIdentifier_retrieve fuel r root ⟨cur, aloc⟩ st =
-      .ok ({ st with out := st.out ++
-        ((containersLoc cur (aloc.getD [])).filter
-          (fun cl => if isObj cl.1 then r.nextMapRequired else r.nextListRequired)).map
-            (fun cl => Res.acc cl.1 (some cl.2)) }, e) :=
+      .ok ({ st with out := (st.out ++
+        List.map (fun cl => Res.acc cl.1 (some cl.2))
+          (List.filter (fun cl => if isObj cl.1 then r.nextMapRequired else r.nextListRequired)
+            (containersLoc cur (aloc.getD [])))) }, e) :=
   NodeTie.descLoop_visits r hn root cur aloc st hc hw fuel hf
 
 /-- the number of values of the document bounds the number of iterations -/
@@ -197,6 +222,30 @@ def desc_tie_full : Prop :=
     retrieve env (.desc i mr lr :: rest) prev root cur aloc st =
       syntaxRecursiveChildIdentifier_retrieve fuel (descRecv env i mr lr rest) root ⟨cur, aloc⟩ st
 
+def i0 : Info := ⟨"", "", false, false⟩
+def docBA : Val := .obj [("b", .arr [.num 1]), ("a", .arr [.num 2])]
+
+/-- the refutation announced at `desc_tie_full`: `$..@`-like chain on `{"b":[1],"a":[2]}` -/
+theorem desc_tie_full_false : ¬ desc_tie_full := by
+  intro h
+  have h1 := h Registry.env i0 true true [.cur i0] (by simp) default .null docBA none {} 10 (by decide)
+  have h2 := congrArg outVals h1
+  have hnext : nextOf Registry.env i0 [.cur i0] = some (fun _ v st => .ok (st.push (.plain v.v), none)) := by
+    simp only [nextOf]
+    congr 1
+    funext root v st
+    simp [retrieve, i0]
+  have hl : outVals (retrieve Registry.env [.desc i0 true true, .cur i0] default .null docBA none {})
+      = [docBA, .arr [.num 1], .arr [.num 2]] := by
+    simp [retrieve, docBA, Val.isContainer, containersLoc, containersLocKVs, containersLocList, isObj, loopAcc, stepAcc,
+      endGroup, finishGroup, St.push, outVals, bind, Except.bind, Res.val, i0]
+  have hr : outVals (syntaxRecursiveChildIdentifier_retrieve 10 (descRecv Registry.env i0 true true [.cur i0]) .null
+      ⟨docBA, none⟩ {}) = [docBA, .arr [.num 2], .arr [.num 1]] := by
+    simp only [descRecv, basicRecv, hnext]
+    rfl
+  rw [hl, hr] at h2
+  simp [docBA] at h2
+
 /-- non-vacuity: a canonical document with nesting in both kinds of container, its size, a
     non-empty rest -/
 example :
@@ -210,4 +259,4 @@ example :
 end NodesGen
 end JPV
 
--- OBLIGATIONS: anyNext_tie mapNext_tie listNext_tie root_tie cur_tie child_tie wild_tie multi_tie union_tie filter_tie_of_nonempty filter_tie descLoop_eq_preorder descLoop_visits desc_fuel_enough desc_tie
+-- OBLIGATIONS: anyNext_tie mapNext_tie listNext_tie root_tie cur_tie child_tie wild_tie multi_tie union_tie filter_tie_of_nonempty filter_tie descLoop_eq_preorder descLoop_visits desc_fuel_enough desc_tie wild_tie_full_false desc_tie_full_false
